@@ -21,18 +21,29 @@ def callees (cfg : Cfg) (i : In) : Callees where
 means to the callers (`writeAllThen`, `retWriteAll`) -/
 theorem writeAll_shape : Gen.Client.writeAll = [.connWrite, .shortIsError, .retErrVar] := rfl
 
-/-- `enc = none` in the model: `Chunk()` (called only when acks are required) or the encoder failed -/
-def encOf (cfg : Cfg) (i : In) : Option Bytes := if cfg.requireAck && i.chunkErr then none else i.encoding
+/-- `enc = none` in the model: `Chunk()` failed or returned the empty id (it is called, and its result looked at, only when acks are
+required), or the encoder failed -/
+def encOf (cfg : Cfg) (i : In) : Option Bytes := if cfg.requireAck && (i.chunkErr || i.chunk = []) then none else i.encoding
 
 theorem Client_Send_is_model (cfg : Cfg) (i : In) (s : St) :
     runC H cfg i (callees H cfg i) Client_Send s = Tcp.send cfg s (encOf cfg i) i.chunk i.fault i.resp := by
   simp only [runC, Client_Send, callees, Client_checkAck, cexecs, cexec, Tcp.send, encOf]
   rcases hs : s.session with _ | ⟨id, tp⟩
   · simp
-  · cases tp <;> cases hr : cfg.requireAck <;> cases hc : i.chunkErr <;> cases he : i.encoding <;> simp [hs] <;>
+  · cases tp <;> cases hr : cfg.requireAck <;> cases hc : i.chunkErr <;> cases he : i.encoding <;> by_cases hk : i.chunk = [] <;> simp [hs, hk] <;>
       (cases hw : (doWrite _ i.fault).2 <;> simp [hw, St.emit, hs]) <;>
       (cases ht : cfg.timeout <;> simp [ht, St.emit, hs]) <;>
       (split <;> simp_all)
+
+/-- the repaired `Send`: with acks required, a message whose chunk id is empty is refused before anything is encoded or written
+(`C04_empty_id_witness` shows what would happen otherwise) -/
+theorem Client_Send_empty_chunk_refused (cfg : Cfg) (i : In) (s : St) (hack : cfg.requireAck = true) (hk : i.chunk = []) :
+    runC H cfg i (callees H cfg i) Client_Send s = (s, .err) := by
+  rw [Client_Send_is_model, encOf, hack, hk]
+  simp only [Bool.true_and, Bool.or_true, decide_true, if_true, Tcp.send]
+  rcases hs : s.session with _ | ⟨id, tp⟩
+  · rfl
+  · cases tp <;> simp
 
 theorem Client_SendRaw_is_model (cfg : Cfg) (i : In) (s : St) :
     runC H cfg i (callees H cfg i) Client_SendRaw s = Tcp.sendRaw s i.raw i.fault := by
